@@ -60,7 +60,7 @@ fn files(tier: Tier) -> Vec<(String, Vec<u8>)> {
     for (s, _) in &seeds {
         for m in mutate::mutants(s, Level::Full) {
             k += 1;
-            if k % stride == 0 || m.what.starts_with("k0") && k % (stride / 8 + 1) == 0 {
+            if k % stride == 0 || m.what.starts_with("k0") {
                 out.push((format!("{}|{}", s.id, m.what), m.bytes));
             }
         }
@@ -164,7 +164,7 @@ pub fn run(tier: Tier) -> Run {
     let distinct: std::collections::HashSet<&Vec<u8>> = fs.iter().map(|f| &f.1).collect();
     run.set("evaluations", json!(n));
     run.set("distinct_nontrivial", json!(distinct.len()));
-    run.set("rule", json!("files = the empty file, every prefix of a valid multi-section module, a strided selection of the C03 universe (every corruption kind of every seed is represented), every word over the 21 instruction classes up to length L in any order, and every hostile word string of length <= 2 (+1-3 trailing bytes); each file is written to disk and the real rspirv-dis binary built from /repo is run on it: exit status 0, stdout equal to the library's disassembly + newline or the Display of the loading error + newline (computed in-process), single-line error, no panic text on stderr. distinct_nontrivial = distinct file contents"));
+    run.set("rule", json!("files = the empty file, every prefix of a valid multi-section module, every unmodified seed of the C03 universe plus a strided selection of its corruptions (every corruption kind represented), every word over the 21 instruction classes up to length L in any order, and every hostile word string of length <= 2 (+1-3 trailing bytes); each file is written to disk and the real rspirv-dis binary built from /repo is run on it: exit status 0, stdout equal to the library's disassembly + newline or the Display of the loading error + newline (computed in-process), single-line error, no panic text on stderr. distinct_nontrivial = distinct file contents"));
     run.set("exhaustive", json!(false));
     run.set("bounds", json!({"files": fs.len(), "selection": "strided (not the whole C03 universe: one process per file)"}));
     run.set("samples", json!(fs.iter().step_by(fs.len() / 5 + 1).map(|f| json!({"file": f.0, "bytes": hex(&f.1[..f.1.len().min(64)])})).collect::<Vec<_>>()));
